@@ -246,3 +246,25 @@ def fields_info_warning(records, first_nr=1):
             if len(seen) == 2:
                 return (seen[0][0], seen[0][1], seen[1][0], seen[1][1])
     return None
+
+
+def expected_read(text, dlm, policy, has_header=False, comment_prefix=None, encoding=None, table_name='input'):
+    """What reading `text` must give: ('ok', records, header, warnings) | ('io', message) -- wording of the messages as documented by rbql_csv."""
+    r = read_table(text, dlm, policy, comment_prefix, encoding)
+    if r['error'] is not None:
+        _k, nr, nl = r['error']
+        return ('io', 'Inconsistent double quote escaping in %s table at record %d, line %d' % (table_name, nr, nl))
+    recs = r['records']
+    warnings = []
+    if r['bom']:
+        warnings.append('UTF-8 Byte Order Mark (BOM) was found and skipped in %s table' % table_name)
+    if r['first_defective'] is not None:
+        warnings.append('Inconsistent double quote escaping in %s table. E.g. at line %d' % (table_name, r['first_defective']))
+    fi = fields_info_warning(recs)   # record numbers count the header line too (the reader numbers it 1)
+    if fi is not None:
+        warnings.append('Number of fields in "%s" table is not consistent: e.g. record %d -> %d fields, record %d -> %d fields' % (table_name, fi[1], fi[0], fi[3], fi[2]))
+    header = None
+    if has_header:
+        header = recs[0] if recs else None
+        recs = recs[1:]
+    return ('ok', recs, header, warnings)
